@@ -11,4 +11,5 @@ CONSTANTS
   Pres = "all"
   MaxArea = 2097152
 INVARIANTS RowAgrees PrefixOK Incremental PreambleOK Refines Dump
+CONSTRAINT AreaConstraint
 CHECK_DEADLOCK FALSE
